@@ -275,10 +275,11 @@ func verif_C04_disciplines() {
 	verifReach("C04.disciplines-end")
 }
 
-// verif_C04_segmentation: six fixed conversations that exercise every framing
+// verif_C04_segmentation: seven fixed conversations that exercise every framing
 // mode (dot-stuffed DATA lines, BDAT chunks holding CRLF and dots, a refused
 // BDAT whose chunk looks like commands, a message over the size limit, LMTP
-// with two recipients, a line over the length limit) are delivered with one
+// with two recipients, a line over the length limit, chunks longer than the
+// line limit) are delivered with one
 // (quick) or two (thorough) cuts at ARBITRARY offsets, and octet by octet. The
 // reply stream, the backend callbacks and the message octets must be those of
 // the unsegmented run.
@@ -292,6 +293,7 @@ func verif_C04_segmentation() {
 		"EHLO c\r\nMAIL FROM:<a@v>\r\nRCPT TO:<b@v>\r\nDATA\r\n12345678\r\n.\r\nNOOP\r\nQUIT\r\n",
 		"LHLO c\r\nMAIL FROM:<a@v>\r\nRCPT TO:<b@v>\r\nRCPT TO:<c@v>\r\nDATA\r\nhi\r\n.\r\nNOOP\r\nQUIT\r\n",
 		"EHLO c\r\nNOOP 789012345678901234567890\r\nNOOP\r\n",
+		"EHLO c\r\nMAIL FROM:<a@v>\r\nRCPT TO:<b@v>\r\nBDAT 30 LAST\r\n123456789012345678901234567890NOOP\r\nBDAT 28\r\n1234567890123456789012345678NOOP\r\nQUIT\r\n",
 	}
 	k := verifChoice(len(convs))
 	in := []byte(convs[k])
@@ -319,6 +321,10 @@ func verif_C04_segmentation() {
 		}
 		if k == 5 {
 			s.MaxLineLength = 20
+		}
+		if k == 6 {
+			// chunks (one accepted, one refused) whose LF-free runs are longer than a line may be
+			s.MaxLineLength = 24
 		}
 		vc := &vconn{in: in, final: io.EOF, seg: seg, cuts: cuts}
 		c := newConn(vc, s)
